@@ -14,12 +14,12 @@ import (
 var ErrInjected = errors.New("injected storage failure")
 
 type DB struct {
-	inner corestore.KVStoreWithBatch
-	mu    sync.Mutex
-	n     int    // calls seen so far
-	FailAt int   // index of the call that fails (-1: none)
-	Fired bool
-	Kinds []string // kind of every call, by index
+	inner  corestore.KVStoreWithBatch
+	mu     sync.Mutex
+	n      int // calls seen so far
+	FailAt int // index of the call that fails (-1: none)
+	Fired  bool
+	Kinds  []string // kind of every call, by index
 	// crash images: a copy of the whole store after each physical write
 	Snap   bool
 	Images []map[string][]byte
